@@ -384,15 +384,54 @@ func cliCase(o *kit.Out, r *kit.Rand, idx int) {
 		}
 	})
 	ign := r.Bool()
+	// no tolerance option at all: any failed iteration fails the run
+	bare := idx%5 == 1 && !setupFails
+	if bare {
+		mf, mr, ign = 0, 0, false
+		if f == 0 && idx%2 == 1 {
+			f = 1 + r.Range(0, n-1)
+		}
+	}
 	args := []string{
 		"run", "users", name, "-c", "1", "-d", "5s",
 		"--max-iterations", kit.I(n),
-		"--max-failures", kit.I(mf), "--max-failures-rate", kit.I(mr),
+	}
+	// a tolerance of zero is also what the run has when the option is not given at all
+	omitted := 0
+	if mf != 0 || (idx%2 == 0 && !bare) {
+		args = append(args, "--max-failures", kit.I(mf))
+	} else {
+		omitted++
+	}
+	if mr != 0 || (idx%4 < 2 && !bare) {
+		args = append(args, "--max-failures-rate", kit.I(mr))
+	} else {
+		omitted++
 	}
 	if ign {
 		args = append(args, "--ignore-dropped")
+	} else {
+		omitted++
 	}
 	var err error
+	if omitted > 0 && (bare || idx%3 != 1) {
+		// an earlier execution in this process (another instance, another trigger mode) was given
+		// generous tolerances: they are that run's, not this one's
+		var k0 atomic.Int64
+		other := f1.New()
+		other.Add(name+"gen", func(*f1testing.T) f1testing.RunFn {
+			return func(t *f1testing.T) {
+				if k0.Add(1)%2 == 0 {
+					t.Fail()
+				}
+			}
+		})
+		_, _ = kit.Guard(func() {
+			_ = other.ExecuteWithArgs([]string{"run", "constant", name + "gen", "-r", "4/10ms", "-d", "60ms", "-c", "2",
+				"--max-failures", "1000", "--max-failures-rate", "100", "--ignore-dropped"})
+		})
+		o.Count("cli", "tolerance options omitted after a run that was given generous ones")
+	}
 	if r.Chance(30) && !setupFails && teardownHow == 0 {
 		// a second execution in one process stands on its own: first a run in which every iteration
 		// fails (or none), then the run whose verdict is compared
